@@ -238,6 +238,9 @@ def corpus():
             http_req(0, headers=[("Connection", "keep-alive, X-Piko-Forward")]),
             http_req(0, headers=[("connection", " x-piko-forward ,x-a"), ("X-A", "1")]),
             http_req(1, headers=[("Connection", "x-piko-forward")]),
+            # the Connection field spread over several lines (RFC 9110 5.3), the control header not named in the first one
+            http_req(0, headers=[("Connection", "close"), ("Connection", "x-piko-forward")]),
+            http_req(1, headers=[("Connection", "keep-alive"), ("connection", "x-a, X-Piko-Forward"), ("X-A", "1")]),
             http_req(0)]})
     # H2 witness (C01/C10): x-piko-endpoint listed in Connection, Host names another endpoint that the second node serves
     cs.append({"id": "corpus-h2", "timeout_ms": NORMAL_TIMEOUT_MS, "kind": "adversarial", "nodes": [
@@ -246,6 +249,7 @@ def corpus():
         "requests": [
             http_req(0, host="other.example.com", headers=[("x-piko-endpoint", "e"), ("Connection", "x-piko-endpoint")]),
             http_req(0, host="other.example.com", headers=[("X-Piko-Endpoint", "e"), ("Connection", "close, X-PIKO-ENDPOINT")]),
+            http_req(0, host="other.example.com", headers=[("x-piko-endpoint", "e"), ("Connection", "keep-alive"), ("Connection", "x-piko-endpoint")]),
             http_req(0, host="other.example.com", headers=[("x-piko-endpoint", "e")]),
             http_req(0, host="other.example.com")]})
     # mutual stale belief, nobody serves: must be 502 after exactly one hop; already-forwarded client request
